@@ -758,11 +758,11 @@ func c16Histories(c *Ctx) {
 
 func runC16(c *Ctx) {
 	c.Level = "exploration"
-	c.Rule = "CoeffUint64/Coeff against incremental math/big binomials: every row n<=70 x all k, every k in 3..40 x every n from 0 to T_k+64 (both argument forms; k=3 interior thinned in quick), k=2 on +-2048 windows of every power of two (all n<=2^32+64 in thorough), k in {0,1} and far-region windows; Coeffs(n<=66); Rank on every subset of [0,16) against its CombinationsColex position; Unrank on every rank below 3*10^5 (2*10^6) for k<=6, boundary ranks C(l,k)+-1, and a fixed probe set of overflowing ranks under a deadline; every sequence of <=3 (4) calls over a 21-call alphabet run sequentially (results must not depend on earlier calls); non-trivial = case with k >= 2 or beyond the table rows"
+	c.Rule = "CoeffUint64/Coeff against incremental math/big binomials: every row n<=70 x all k, every k in 3..40 x every n from 0 to T_k+64 (both argument forms; k=3 interior thinned in quick), k=2 on +-2048 windows of every power of two (all n<=2^32+64 in thorough), k in {0,1} and far-region windows; Coeffs(n<=66); Rank on every subset of [0,16) against its CombinationsColex position; Unrank on every rank below 3*10^5 (2*10^6) for k<=6, boundary ranks C(l,k)+-1, a probe set of huge ranks, and r = MaxInt>>s with its neighbours (s<=40) for every k<=70 whose correct walk is at most 2e7 steps (deadline >= 100x the walk's time); Rank must invert Unrank or refuse only where a term lies outside the range Coeff must answer; every sequence of <=3 (4) calls over a 21-call alphabet run sequentially (results must not depend on earlier calls); non-trivial = case with k >= 2 or beyond the table rows"
 	c16Histories(c)
 	c16Coeff(c)
 	c16Rank(c)
-	c.Assume("Unrank inputs whose correct linear walk exceeds 2e7 steps without overflow (k=1, r>2e7) are not evaluated")
+	c.Assume("Unrank inputs whose correct linear walk exceeds 2e7 steps (e.g. k=1 with r>2e7, k=2 with r>2e14) are not evaluated: they terminate, but not within a check")
 }
 
 func replayC16(kind string, raw json.RawMessage) *Failure {
